@@ -47,7 +47,7 @@ Inductive err : Type :=
 Record fstate : Type := mkF {
   reg : rstate;
   flds : list ((name * nat) * list ver);           (* (holder, point index) -> injected versions *)
-  deps : list (name * list name);                  (* component -> holders that were handed a version of it *)
+  deps : list (ver * list name);                   (* version (Meta object) -> holders it was injected into (Meta.dependOn) *)
   injs : list (name * list (list (option name)));  (* holder -> Injects of each point *)
   nextp : nat;                                     (* proxy objects created so far *)
   earlymade : list ((name * name) * nat);          (* (processor, component) -> proxy it made as early reference *)
@@ -94,17 +94,24 @@ Fixpoint klookup {A : Type} (k : name * nat) (l : list ((name * nat) * A)) : opt
 Definition field_of (st : fstate) (h : name) (k : nat) : list ver :=
   match klookup (h, k) (flds st) with Some l => l | None => [] end.
 
-Definition deps_of (st : fstate) (n : name) : list name :=
-  match alookup n (deps st) with Some l => l | None => [] end.
+(* dependents are recorded per Meta object, i.e. per version: a proxy made in a later attempt starts with none *)
+Fixpoint vlookup {A : Type} (v : ver) (l : list (ver * A)) : option A :=
+  match l with
+  | [] => None
+  | (w, a) :: r => if ver_eqb w v then Some a else vlookup v r
+  end.
 
-Definition add_dep (d : list (name * list name)) (n h : name) : list (name * list name) :=
-  let cur := match alookup n d with Some l => l | None => [] end in
-  if mem h cur then d else aset n (cur ++ [h]) d.
+Definition deps_of (st : fstate) (v : ver) : list name :=
+  match vlookup v (deps st) with Some l => l | None => [] end.
+
+Definition add_dep (d : list (ver * list name)) (v : ver) (h : name) : list (ver * list name) :=
+  let cur := match vlookup v d with Some l => l | None => [] end in
+  if mem h cur then d else (v, cur ++ [h]) :: d.
 
 (* write a field and record the holder as dependent of every version written (property.go :87-96) *)
 Definition write_field (st : fstate) (h : name) (k : nat) (vs : list ver) : fstate :=
   mkF (reg st) (((h, k), vs) :: flds st)
-      (fold_left (fun d v => add_dep d (owner v) h) vs (deps st))
+      (fold_left (fun d v => add_dep d v h) vs (deps st))
       (injs st) (nextp st) (earlymade st) (active st) (log st) (scanned st).
 
 Definition new_proxy (st : fstate) (n : name) : fstate * ver :=
@@ -369,10 +376,11 @@ Section WithRec.
 
   (* ---- doCreateComponent (factory.go :190-250) ------------------------------------------------------ *)
 
-  Definition stale_dependents (st : fstate) (n : name) : list name :=
+  (* append(earlySingletonReference.GetDependents(), meta.GetDependents()...) *)
+  Definition stale_dependents (st : fstate) (n : name) (e : ver) : list name :=
     filter (fun d => if fix_c03 vt then Nat.eqb d n || negb (is_creating (reg st) d)
                      else negb (is_creating (reg st) d))
-           (deps_of st n).
+           (deps_of st e ++ deps_of st (VOrig n)).
 
   Definition do_create (st : fstate) (n : name) (c : comp) : res (fstate * ver) :=
     let st0 := set_reg st (add_factory (reg st) n n) in          (* :192-198 early exposure *)
@@ -386,7 +394,7 @@ Section WithRec.
           match w with
           | None => Ok (st2, e)                                    (* :230-232 *)
           | Some v =>
-            match stale_dependents st2 n with                      (* :233-246 *)
+            match stale_dependents st2 n e with                    (* :233-246 *)
             | [] => Ok (st2, v)
             | _ => Fail (FErr EStale) st2
             end
